@@ -290,3 +290,136 @@ Check dump_peer_indexes_consistent :
                                   /\ pe_addr row = d_addr p) paths es.
 Print Assumptions dump_peer_indexes_consistent.
 
+(* (2'') [wf_msg] excludes Statistics Report, Termination and Route Mirroring: BmpCodec writes
+   them as a bare common header, which is not a well-formed message of those types
+   (RFC 7854 4.8 / 4.5 / 4.7).  daemon/src/bmp.rs never sends them. *)
+Theorem bmp_unused_kinds_refuted :
+  read_bmp_stream 1 (bmp_encode [] StatsReports) = None
+  /\ read_bmp_stream 1 (bmp_encode [] Termination) = None
+  /\ read_bmp_stream 1 (bmp_encode [] RouteMirroring) = None.
+Proof. exact C19_bmp_unused_kinds_refuted. Qed.
+Check bmp_unused_kinds_refuted :
+  read_bmp_stream 1 (bmp_encode [] StatsReports) = None
+  /\ read_bmp_stream 1 (bmp_encode [] Termination) = None
+  /\ read_bmp_stream 1 (bmp_encode [] RouteMirroring) = None.
+Print Assumptions bmp_unused_kinds_refuted.
+
+(* (13) daemon: session_down_to_bmp yields a Peer Down that meets the hypotheses of (2) for
+   every cause, with the RFC 7854 4.9 reason code: 1 / 3 around the local / remote
+   NOTIFICATION, 2 (FSM event 0) for locally decided closes, 4 when the peer vanished. *)
+Theorem session_down_reason :
+  forall (r : option session_down) (h : pph),
+    wf_pph h ->
+    (forall b, r = Some (SDRemoteNotification b) \/ r = Some (SDLocalNotification b) ->
+               frame_ok BGP_NOTIFICATION b) ->
+    wf_msg (PeerDown h (session_down_to_bmp r))
+    /\ reason_code (session_down_to_bmp r) =
+       match r with
+       | None | Some SDIoError => 4
+       | Some (SDLocalNotification _) => 1
+       | Some (SDRemoteNotification _) => 3
+       | Some SDHoldTimerExpired | Some SDFsmError | Some SDAdminShutdown => 2
+       end.
+Proof. exact C19_session_down_reason. Qed.
+Check session_down_reason :
+  forall (r : option session_down) (h : pph),
+    wf_pph h ->
+    (forall b, r = Some (SDRemoteNotification b) \/ r = Some (SDLocalNotification b) ->
+               frame_ok BGP_NOTIFICATION b) ->
+    wf_msg (PeerDown h (session_down_to_bmp r))
+    /\ reason_code (session_down_to_bmp r) =
+       match r with
+       | None | Some SDIoError => 4
+       | Some (SDLocalNotification _) => 1
+       | Some (SDRemoteNotification _) => 3
+       | Some SDHoldTimerExpired | Some SDFsmError | Some SDAdminShutdown => 2
+       end.
+Print Assumptions session_down_reason.
+
+(* (14) daemon: the Peer Up of the Loc-RIB virtual peer meets the hypotheses of (2) (peer type
+   3, zero IPv4 address, no V bit) and its fabricated OPEN states the local AS in the
+   4-octet AS capability (RFC 9069 4.4; finding C19-5) and the router id. *)
+Theorem loc_rib_peer_up_wf :
+  forall (rid : bytes) (asn : N) (blob : bytes),
+    asn < 2 ^ 32 -> length rid = 4%nat -> frame_ok BGP_OPEN blob ->
+    wf_msg (loc_rib_peer_up rid asn blob)
+    /\ (exists h, loc_rib_peer_up rid asn blob = PeerUp h (IP4 [0;0;0;0]) 0 0 blob blob
+                  /\ p_type h = 3 /\ flags_no_v h /\ p_addr h = IP4 [0;0;0;0] /\ p_asn h = asn /\ p_id h = rid)
+    /\ In (VL [VN 65; VN asn]) (o_caps (loc_rib_open rid asn))
+    /\ o_asn (loc_rib_open rid asn) = asn /\ o_rid (loc_rib_open rid asn) = be_dec rid.
+Proof. exact C19_loc_rib_peer_up_wf. Qed.
+Check loc_rib_peer_up_wf :
+  forall (rid : bytes) (asn : N) (blob : bytes),
+    asn < 2 ^ 32 -> length rid = 4%nat -> frame_ok BGP_OPEN blob ->
+    wf_msg (loc_rib_peer_up rid asn blob)
+    /\ (exists h, loc_rib_peer_up rid asn blob = PeerUp h (IP4 [0;0;0;0]) 0 0 blob blob
+                  /\ p_type h = 3 /\ flags_no_v h /\ p_addr h = IP4 [0;0;0;0] /\ p_asn h = asn /\ p_id h = rid)
+    /\ In (VL [VN 65; VN asn]) (o_caps (loc_rib_open rid asn))
+    /\ o_asn (loc_rib_open rid asn) = asn /\ o_rid (loc_rib_open rid asn) = be_dec rid.
+Print Assumptions loc_rib_peer_up_wf.
+
+(* (15) daemon: the UPDATE built from an Adj-RIB-Out change carries its single NLRI, next hop
+   and attributes unchanged; an announcement exactly when it has attributes. *)
+Theorem adj_rib_out_update_faithful :
+  forall (family : N) (nlri : val) (attrs : option val) (nexthop : val),
+    adj_rib_out_to_update family nlri attrs nexthop =
+    match attrs with
+    | Some a => UReach family [nlri] nexthop a
+    | None => UUnreach family [nlri]
+    end.
+Proof. exact C19_adj_rib_out_update_faithful. Qed.
+Check adj_rib_out_update_faithful :
+  forall (family : N) (nlri : val) (attrs : option val) (nexthop : val),
+    adj_rib_out_to_update family nlri attrs nexthop =
+    match attrs with
+    | Some a => UReach family [nlri] nexthop a
+    | None => UUnreach family [nlri]
+    end.
+Print Assumptions adj_rib_out_update_faithful.
+
+(* (16) For EVERY behaviour of the BGP encoder: embedding a monitored update never panics; the
+   codec is asked for the RFC 8950 form according to [needs_rfc8950] only; the RFC 8654 limit
+   is used only after the 4096-octet attempt failed; an error only when both failed. *)
+Theorem embed_total :
+  forall (enc : bool -> bool -> bool -> update -> option bytes) (ap : bool) (u : update),
+    embed enc ap u <> EncoderPanic
+    /\ (forall b, embed enc ap u = Embedded b ->
+          enc (needs_rfc8950 u) false ap u = Some b
+          \/ (enc (needs_rfc8950 u) false ap u = None /\ enc (needs_rfc8950 u) true ap u = Some b))
+    /\ (embed enc ap u = EncodeError ->
+          enc (needs_rfc8950 u) false ap u = None /\ enc (needs_rfc8950 u) true ap u = None).
+Proof. exact C19_embed_total. Qed.
+Check embed_total :
+  forall (enc : bool -> bool -> bool -> update -> option bytes) (ap : bool) (u : update),
+    embed enc ap u <> EncoderPanic
+    /\ (forall b, embed enc ap u = Embedded b ->
+          enc (needs_rfc8950 u) false ap u = Some b
+          \/ (enc (needs_rfc8950 u) false ap u = None /\ enc (needs_rfc8950 u) true ap u = Some b))
+    /\ (embed enc ap u = EncodeError ->
+          enc (needs_rfc8950 u) false ap u = None /\ enc (needs_rfc8950 u) true ap u = None).
+Print Assumptions embed_total.
+
+(* (17) ... and that form is requested exactly for an IPv4-unicast announcement whose next hop is
+   a 16- or 32-octet (IPv6) one: findings C19-3 / C19-4 as repaired. *)
+Theorem needs_rfc8950_iff :
+  forall u : update,
+    needs_rfc8950 u = true <->
+    exists es nh a, u = UReach 65537 es nh a /\ nh_is_v6 nh = true.
+Proof. exact C19_needs_rfc8950_iff. Qed.
+Check needs_rfc8950_iff :
+  forall u : update,
+    needs_rfc8950 u = true <->
+    exists es nh a, u = UReach 65537 es nh a /\ nh_is_v6 nh = true.
+Print Assumptions needs_rfc8950_iff.
+
+(* (16') record of the behaviour before the repairs: an encoder that has no room within 4096
+   octets made the old configuration panic where the new one embeds the update. *)
+Theorem embed_before_fix_refuted :
+  exists (enc : bool -> bool -> bool -> update -> option bytes) (u : update) (b : bytes),
+    embed_before_fix enc false u = EncoderPanic /\ embed enc false u = Embedded b.
+Proof. exact C19_embed_before_fix_refuted. Qed.
+Check embed_before_fix_refuted :
+  exists (enc : bool -> bool -> bool -> update -> option bytes) (u : update) (b : bytes),
+    embed_before_fix enc false u = EncoderPanic /\ embed enc false u = Embedded b.
+Print Assumptions embed_before_fix_refuted.
+
